@@ -103,7 +103,13 @@ def pre_elem_attributes_kind(facts, reach):
     return True, "fed only by XmlElement::node and set_attribute_node"
 
 
+def pre_xpath_tokens(facts, reach, enum_name):
+    import tokens
+    return tokens.pre_xpath_tokens(facts, reach, enum_name)
+
+
 PRECONDITIONS = {
+    "xpath_tokens": pre_xpath_tokens,
     "radix_domain": pre_radix_domain,
     "attr_value_kinds": pre_attr_value_kinds,
     "expanded_text": pre_expanded_text,
@@ -125,7 +131,7 @@ def r(key, reason, pre=None):
 for k in ("xml_info::<XmlCharReference as std::fmt::Display>::fmt|panic|unreachable!#1",
           "xml_info::<XmlEntityValue as std::fmt::Display>::fmt|panic|unreachable!#1",
           "xml_info::XmlCharReference::node|panic|unreachable!#1",
-          "xml_info::attr_value_from_name|panic|unreachable!#1"):
+          "xml_info::expand_entity|panic|unreachable!#1"):
     r(k, "radix is copied from parser::Reference::Character, which is only built with 10 or 16", "radix_domain")
 
 # ---- document context / document item
@@ -253,3 +259,53 @@ def resolve(facts, reach, extra_pre=None):
         if verdicts[p][0]:
             out[key] = reason + " [" + p + ": " + verdicts[p][1] + "]"
     return out, verdicts
+
+
+# ------------------------------------------------------------------------------------------
+# recursion cycles whose depth is bounded by the shape of a finite enum (not by the input)
+
+SCC = {}
+
+
+def scc(members, reason, pre=None):
+    SCC["+".join(sorted(members))] = (reason, pre)
+
+
+scc(["xml_dom::XmlNode::order"],
+    "XmlNode::order recurses only for ExpandedText, on data[0], which is never an ExpandedText", "expanded_text")
+scc(["xml_dom::XmlNode::id"],
+    "XmlNode::id recurses only for ExpandedText, on data[0], which is never an ExpandedText", "expanded_text")
+scc(["xml_dom::<XmlExpandedText as Node>::parent_node", "xml_dom::<XmlNode as Node>::parent_node"],
+    "one level: ExpandedText delegates to data[0], which is a CData / EntityReference / Text node", "expanded_text")
+scc(["xml_dom::<XmlExpandedText as Node>::owner_document", "xml_dom::<XmlNode as Node>::owner_document"],
+    "one level: ExpandedText delegates to data[0], which is a CData / EntityReference / Text node", "expanded_text")
+scc(["xml_dom::<XmlExpandedText as std::fmt::Display>::fmt", "xml_dom::<XmlNode as std::fmt::Display>::fmt"],
+    "one level: the parts of an ExpandedText are CData / EntityReference / Text nodes", "expanded_text")
+scc(["xml_dom::<XmlExpandedText as PrettyPrint>::pretty", "xml_dom::<XmlNode as PrettyPrint>::pretty"],
+    "one level: the parts of an ExpandedText are CData / EntityReference / Text nodes", "expanded_text")
+scc(["xml_xpath::eval::model::<impl std::convert::TryFrom<&eval::model::Value> for f64>::try_from"],
+    "number(node-set) converts to a string and calls itself once on Value::Text, which does not recurse")
+for a, b in (("equal_node", "equal_value"), ("not_equal_node", "not_equal_value")):
+    scc(["xml_xpath::eval::%s" % a, "xml_xpath::eval::%s" % b],
+        "the *_node function calls *_value on two Value::Text operands, for which *_value does not call *_node again")
+for g in ("than", "eq"):
+    scc(["xml_xpath::eval::greater_%s_node" % g, "xml_xpath::eval::greater_%s_value" % g,
+         "xml_xpath::eval::less_%s_node" % g, "xml_xpath::eval::less_%s_value" % g],
+        "the *_node functions call *_value on two Value::Text operands, which takes the numeric branch")
+
+
+def scc_reasons(facts, reach):
+    out = {}
+    verdicts = {}
+    for key, (reason, p) in SCC.items():
+        if p is None:
+            out[key] = reason
+            continue
+        if p not in verdicts:
+            try:
+                verdicts[p] = PRECONDITIONS[p](facts, reach)
+            except Exception as ex:
+                verdicts[p] = (False, str(ex))
+        if verdicts[p][0]:
+            out[key] = reason
+    return out
